@@ -246,7 +246,7 @@ def run(ctx):
             if body.strip(): cases.append((kind.strip(), body.strip(), set()))
     if ctx.replay:
         rp = json.load(open(ctx.replay))
-        cases = [(rp["witness"].get("kind", "free"), rp["witness"]["case"], set())]
+        cases = [(rp["witness"].get("kind", "free"), rp["witness"]["case"], set())] if "case" in rp["witness"] else []
     else:
         while len(cases) < ncases:
             x = rng.random()
@@ -265,7 +265,7 @@ def run(ctx):
         ops = parse_ops(line)
         ires = impl_out[idx].split(" | ")
         if ires[0].strip() in ("panic",) or len(ires) != len(ops) + 1:
-            viol.append(("the harness run of the real CachedBackend failed: " + impl_out[idx][:200], kind, line, 0, None)); continue
+            viol.append(("the harness run of the real CachedBackend failed", kind, line, 0, None, impl_out[idx][:300])); continue
         mres = model_out[idx].split(" | ") if model_out else None
         n_ops += len(ops)
         hist["kind_" + kind] = hist.get("kind_" + kind, 0) + 1
@@ -289,13 +289,14 @@ def run(ctx):
         for k, o in enumerate(ops):
             fi = fields(ires[k])
             if fi["B"] != "1":
-                viol.append(("backend contents differ from the run without cache", kind, line, k, None)); break
+                viol.append(("backend contents differ from the run without cache", kind, line, k, None, ires[k][:300])); break
             d = fields(mres[k]).get("D", "0") == "1" if mres is not None else False
             disc_all = disc_all and d
             if kind != "wild" and d and o[0] != 5:
                 n_oracle_ops += 1
                 if fi["C"] != fi["U"]:
-                    viol.append(("cached handle returns %s, the same history without cache returns %s" % (fi["C"][:80], fi["U"][:80]), kind, line, k, None)); break
+                    viol.append(("an operation of a disciplined history returns a different result through the cached handle than without cache",
+                                 kind, line, k, None, "cached %s, uncached %s" % (fi["C"][:120], fi["U"][:120]))); break
             if o[0] in (0, 1) and fi["C"].startswith("D:") and fi["C"] != "D:-" and fi["K"]:
                 served = True
         if disc_all and kind != "wild": n_disc_full += 1
@@ -303,7 +304,8 @@ def run(ctx):
         lo = listing_oracle(ops, ires[:-1])
         n_list_checks += sum(1 for o in ops if (o[0] == 4 and o[1] in (1, 3)) or o[0] == 5)
         if lo:
-            viol.append((lo[1], kind, line, lo[0], classify(ops, lo[0])))
+            viol.append(("after a listing (or check's pack clean-up) the cache still holds a file of that type which the repository does not have with that size",
+                         kind, line, lo[0], classify(ops, lo[0]), lo[1]))
         # non-trivial: something was planted or removed behind the cache and a read was served / a listing cleaned
         if (tags & {"plant_honest", "plant_truncated", "plant_extended", "plant_wrong_size", "be_remove", "plant_stray"}) and served:
             nontriv.add(line)
@@ -312,7 +314,9 @@ def run(ctx):
 
     # ---- e2e: identical histories with and without cache
     ne2e = 40 if ctx.thorough() else 8
-    e2e_lines = ["%d %d %d" % (rng.randint(1, 10 ** 9), rng.choice([5, 6, 8]), 1 if j % 3 == 2 else 0) for j in range(ne2e)]
+    # regression histories first (they failed on the tree before the fix 'cache clean-up ignores misplaced files'), then fresh ones
+    e2e_lines = ["712448054 6 1", "561891451 6 1"]
+    e2e_lines += ["%d %d %d" % (rng.randint(1, 10 ** 9), rng.choice([5, 6, 8]), 1 if j % 3 == 2 else 0) for j in range(ne2e - len(e2e_lines))]
     if ctx.replay:
         rp = json.load(open(ctx.replay))
         e2e_lines = [rp["witness"]["e2e"]] if "e2e" in rp["witness"] else []
@@ -330,9 +334,9 @@ def run(ctx):
         parts = out.split(" | ")
         if out.startswith("FAIL"):
             sig = "misplaced-cache-file-aborts-cleanup" if (ln.split()[2] == "1" and kv.get("diffs") == "0") else None
-            what = ("cached and uncached histories differ: " + parts[1][:300]) if kv.get("diffs") != "0" else \
-                   ("after a step of the cached handle the cache holds files the repository does not have: " + parts[2][:300])
-            ctx.violation(what, {"e2e": ln, "result": out[:1500], "how_to_replay": "echo '<e2e>' > f; <target>/debug/c19 f e2e  (line: seed nsteps stray; harness/src/bin/c19.rs)"}, signature=sig)
+            what = "backup/forget/prune/check history: a step returns a different result with the cache than without" if kv.get("diffs") != "0" else \
+                   "backup/forget/prune/check history: after a step of the cached handle the cache holds snapshot/index files the repository does not have"
+            ctx.violation(what, {"e2e": ln, "detail": (parts[1] if kv.get("diffs") != "0" else parts[2])[:400], "result": out[:1500], "how_to_replay": "echo '<e2e>' > f; <target>/debug/c19 f e2e  (line: seed nsteps stray; harness/src/bin/c19.rs)"}, signature=sig)
         else:
             ctx.violation("e2e history could not be run: " + out[:300], {"e2e": ln, "result": out[:1500]}, no_input=True)
 
@@ -346,8 +350,8 @@ def run(ctx):
         "transparency_oracle_ops": n_oracle_ops, "fully_disciplined_cases": n_disc_full, "listing_oracle_checks": n_list_checks,
         "e2e": e2e_stats, "extracted_facts": meta,
     })
-    for what, kind, line, k, sig in viol[:50]:
-        ctx.violation(what, {"case": line, "kind": kind, "op_index": k, "op": " ".join(map(str, parse_ops(line)[k])) if k is not None else None,
+    for what, kind, line, k, sig, detail in viol[:50]:
+        ctx.violation(what, {"case": line, "kind": kind, "op_index": k, "detail": detail, "op": " ".join(map(str, parse_ops(line)[k])) if k is not None else None,
                              "how_to_replay": "echo '<case>' | <target>/debug/c19 -   (format: harness/src/bin/c19.rs)"}, signature=sig)
     if mism and not viol:
         ctx.violation("correspondence broken: extracted model of CachedBackend/Cache disagrees with the implementation (%d cases) although every oracle holds" % len(mism),
